@@ -10,11 +10,12 @@ RULE = ('C19/C20 runs with live_spy and/or live_trace switched on, on HsmWithQue
         'the writer thread, drained before comparing), under a scripted clock substituted for miros.hsm.stdlib_datetime: real, frozen '
         '(every now() returns the same instant), coarse (ticks every k calls), backwards (decreasing). The registered live-spy callback '
         'must receive exactly the concatenation of the step spy logs (as computed from the ground-truth invocation log) and the live-trace '
-        'callback exactly one formatted record per new trace record, in order. distinct_nontrivial = distinct (host, clock, live flags, '
+        'callback exactly one formatted record per new trace record, in order (clear_spy() / clear_trace() calls by the client in between do not take anything back). Every sixth case is an active object with live spy on and poster threads racing it under detsched: its thread must survive and the callback must receive the invocation and HOOK line of every dispatched event once, in order. distinct_nontrivial = distinct (host, clock, live flags, '
         'spy lines, trace records) tuples')
 CASES = {'quick': 2500, 'thorough': 100000}
-BUDGET = {'quick': 40, 'thorough': 300}
-REQUIRE = {'live_spy_runs': 500, 'live_trace_runs': 500, 'clock_frozen': 100, 'clock_coarse': 100, 'clock_backwards': 100, 'live_trace_records': 5000}
+BUDGET = {'quick': 150, 'thorough': 300}
+REQUIRE = {'live_spy_runs': 500, 'live_trace_runs': 500, 'clock_frozen': 100, 'clock_coarse': 100, 'clock_backwards': 100, 'live_trace_records': 5000, 'concurrent_live_runs': 150, 'concurrent_live_dispatches_checked': 1000}
+ANNOUNCE_CASES = True
 ASSUME = ['the clock is substituted only through the module global miros.hsm.stdlib_datetime (strftime etc. stay real)']
 
 BASE = datetime.datetime(2024, 1, 1, 12, 0, 0)
@@ -35,7 +36,50 @@ class Clock(datetime.datetime):
     return BASE - datetime.timedelta(microseconds=cls.calls)   # backwards
 
 
+def concurrent_case(ctx, n):
+  """an active object with live spy (and trace) on while posters race its thread under detsched: the object's thread must
+  survive, and the callback must have received the line of every handler invocation exactly once, in dispatch order"""
+  from vt.checks import c05
+  rng = ctx.rng('conc', n)
+  plans, fan, nev = c05.gen_plan(rng)
+  live = (True, rng.random() < 0.5)
+  result, s, hist, ao = c05.run_scenario(ctx, rng, plans, fan, nev, True, True, extras={'live': live})
+  ctx.count('concurrent_live_runs')
+  wit = {'concurrent_posters': True, 'plans': plans, 'fan': fan, 'live': live, 'policy': s.policy, 'switch_trail_tail': s.trail[-25:]}
+  if result.get('verdict') is not None:
+    ctx.count('other_property_disagreements')      # posting that does not return is C05's business
+    return
+  ctx.distinct(('conc',) + s.signature()[:60])
+  if result['thread_exceptions']:
+    ctx.violation('C21/live-output-kills-thread', 'with live spy on and posters racing the object, a thread died: %r; lines of later steps are never handed to the callback' % (result['thread_exceptions'],), wit)
+    return
+  try:
+    ds_q = ao.writer._queue
+    import queue as _q
+    if _q.Queue.qsize(ds_q):
+      ctx.count('other_property_disagreements')
+      return
+  except Exception:
+    pass
+  ndisp = sum(1 for d in hist.dispatch if d['sig'] == 'EVT')
+  lines = result.get('live_spy_lines', [])
+  calls = [l for l in lines if l == 'EVT:c04_state']
+  hooks = [l for l in lines if l == 'EVT:c04_state:HOOK']
+  ctx.count('concurrent_live_dispatches_checked', ndisp)
+  if len(calls) != ndisp or len(hooks) != ndisp:
+    ctx.violation('C21/live-spy-differs', 'with posters racing the object, %d events were dispatched (each handled internally) but the live spy callback received %d invocation lines and %d HOOK lines' % (ndisp, len(calls), len(hooks)), dict(wit, live_tail=lines[-12:]))
+    return
+  # production order: an invocation line is directly followed by its HOOK line (the handler appends nothing in between
+  # unless it posts: POST markers of the handler's own posts, and of racing posters, may sit between them)
+  pos = [i for i, l in enumerate(lines) if l in ('EVT:c04_state', 'EVT:c04_state:HOOK')]
+  seq = [lines[i] for i in pos]
+  if seq != ['EVT:c04_state', 'EVT:c04_state:HOOK'] * ndisp:
+    ctx.violation('C21/live-spy-differs', 'with posters racing the object the live spy lines of the handler invocations came out of production order: %r' % seq[:12], wit)
+
+
 def run_case(ctx, n):
+  if n % 6 == 5:
+    return concurrent_case(ctx, n)
   rng = ctx.rng('clock', n)
   Clock.mode = rng.choice(['real', 'frozen', 'coarse', 'backwards'])
   Clock.calls = 0
@@ -44,7 +88,7 @@ def run_case(ctx, n):
   nv = ctx.nviol
   H.stdlib_datetime = Clock
   try:
-    r = qcheck.run_qcase(ctx, n, ('C21',), with_queries=n % 2 == 0, live=True, long_run=rng.random() < 0.1)
+    r = qcheck.run_qcase(ctx, n, ('C21',), with_queries=n % 2 == 0, live=True, long_run=rng.random() < 0.1, clears=True)
   finally:
     H.stdlib_datetime = saved
   ctx.count('clock_' + Clock.mode)
